@@ -247,8 +247,6 @@ class Tracker:
             want = 'proved' if k == 'instantiate' else 'pattern'
             if len(S) < n + 1 or S[-1][0] != want or any(S[-i][0] != 'pattern' for i in range(2, n + 2)):
                 raise Raise()
-            if k == 'instantiate' and n == 0 and len(S) > 1:
-                raise Raise()
             a = S.pop()[1]
             vals = [S[-(n - i)][1] for i in range(n)] if n else []
             for _ in range(n):
